@@ -98,14 +98,18 @@ def classify_c18(text, rc, out, err):
 
 
 def classify_c08(text, fphase, dphase, where, rc, out, err, probes):
-    """KF-C08-SKIPPED-DEF.  Predicate: the definition of X stands AFTER an instruction that fails (later in the same phase, or in a later phase),
-    and [cleanup] refers to X.  Defect model: the run-time symbol table is filled by the main step of each `def`; the failing instruction stops
+    """KF-C08-SKIPPED-DEF.  Predicate: the definition of X stands AFTER an instruction that fails (later in the same phase, or in a later phase)
+    - or in a phase that --act skips - and [cleanup] refers to X.  Defect model: the run-time symbol table is filled by the main step of each `def`; the failing instruction stops
     forward execution, so X is never added; [cleanup] still runs, and resolving the reference raises KeyError 'Name not in symbol table: "X"',
     reported as INTERNAL_ERROR (exit 129) in [cleanup] - or dropped in favour of the first failure when that was in [before-assert]; in both
     cases the cleanup instruction does not run (no probe).  Nothing else is wrong."""
     if not is_known('KF-C08-SKIPPED-DEF'):
         return None
-    if where != 'after' and dphase == fphase:
+    if fphase == 'act-mode':
+        # --act skips [before-assert] and [assert]: their definitions are never executed either
+        if dphase not in ('before-assert', 'assert'):
+            return None
+    elif where != 'after' and dphase == fphase:
         return None
     if probes != []:
         return None
